@@ -26,14 +26,43 @@ for _c in X.all_classes():
         pass
 SITES = X.default_sites(list(CLASSES.values()))
 SITE_OF_PROP = {id(p): i for i, (_, _, p, _) in enumerate(SITES)}
+
+
+def arg_default_sites():
+    """mutable objects stored as default ARGUMENT values of methods of the classes: [(class key, 'func #i', object)]
+    (Python evaluates them once: an __init__ that stores one hands the same object to every instance)"""
+    import inspect
+    import types
+    out, seen = [], set()
+    for cls in CLASSES.values():
+        for klass in inspect.getmro(cls):
+            if not klass.__module__.startswith('sdc11073.'):
+                continue
+            for name, f in list(klass.__dict__.items()):
+                f = getattr(f, '__func__', f)
+                if not isinstance(f, types.FunctionType) or id(f) in seen:
+                    continue
+                seen.add(id(f))
+                for i, d in enumerate(list(f.__defaults__ or ()) + list((f.__kwdefaults__ or {}).values())):
+                    if X.is_mutable(d):
+                        out.append((X.class_key(klass), f'{name} default #{i}', d))
+    return out
+
+
+ARGSITES = arg_default_sites()
+ARG_OF_OBJ = {id(d): i for i, (_, _, d) in enumerate(ARGSITES)}
+ARG_CLASSES = {k for k, _, _ in ARGSITES}
+ROOTS = [(s[0], s[1], s[3]) for s in SITES] + ARGSITES      # every process-start object an instance must not reach
 STRUCT_PROPS = (xs.SubElementProperty, xs.ContainerProperty)
 LIST_PROPS = (xs.SubElementListProperty, xs.ContainerListProperty)
 
 
 def direct_site_classes():
     out = []
+    import inspect
     for key, cls in CLASSES.items():
-        if any(id(p) in SITE_OF_PROP for _, p in X.class_props(cls)):
+        if any(id(p) in SITE_OF_PROP for _, p in X.class_props(cls)) or \
+                any(X.class_key(k) in ARG_CLASSES for k in inspect.getmro(cls)):
             out.append(key)
     return out
 
@@ -83,12 +112,13 @@ class Case:
         self.intern = X.Interner()
         self.site_ids = sorted(closure_sites(self.cls))
         self.local = {g: i for i, g in enumerate(self.site_ids)}
-        self.defaults = [SITES[g][3] for g in self.site_ids]
+        self.defaults = [SITES[g][3] for g in self.site_ids] + [d for _, _, d in ARGSITES]
         self.insts = []
         self.origin = []          # op kind that created each instance
         self.ops = []
         self.trace = {'defaults': [X.tree_of(d, self.intern) for d in self.defaults],
-                      'sites': [f'{SITES[g][0]}.{SITES[g][1]}' for g in self.site_ids],
+                      'sites': [f'{SITES[g][0]}.{SITES[g][1]}' for g in self.site_ids]
+                      + [f'{a[0]}.{a[1]}' for a in ARGSITES],
                       'ops': [], 'obs': [], 'shared': [], 'inst': [], 'dflt': [], 'fresh': [], 'origin': self.origin,
                       'notes': []}
         self.snapshot()
@@ -98,15 +128,15 @@ class Case:
         toks, shared = X.observe(self.defaults, self.insts, self.intern)
         self.trace['obs'].append(toks)
         # sharing judged against ALL class defaults of the library, not only the ones of this class' closure
-        _, shared_all = X.observe([s[3] for s in SITES], self.insts, X.Interner())
+        _, shared_all = X.observe([r[2] for r in ROOTS], self.insts, X.Interner())
         sh = []
         for a, b in shared_all:
-            a = ['d', f'{SITES[a[1]][0]}.{SITES[a[1]][1]}'] if a[0] == 'd' else ['i', a[1]]
-            b = ['d', f'{SITES[b[1]][0]}.{SITES[b[1]][1]}'] if b[0] == 'd' else ['i', b[1]]
+            a = ['d', f'{ROOTS[a[1]][0]}.{ROOTS[a[1]][1]}'] if a[0] == 'd' else ['i', a[1]]
+            b = ['d', f'{ROOTS[b[1]][0]}.{ROOTS[b[1]][1]}'] if b[0] == 'd' else ['i', b[1]]
             sh.append([a, b])
         self.trace['shared'].append(sh)
         self.trace['inst'].append([h(X.tree_of(i, self.intern)) for i in self.insts])
-        self.trace['dflt'].append([h(X.canon(s[3])) for s in SITES])
+        self.trace['dflt'].append([h(X.canon(r[2])) for r in ROOTS])
         self.trace['fresh'].append(h(X.canon(X.construct(self.cls))))
 
     # ---------------------------------------------------------------- descriptions for the model
@@ -123,7 +153,9 @@ class Case:
         out = []
         for (name, p), raw in zip(X.class_props(type(obj)), X.raw_fields(obj)):
             g = SITE_OF_PROP.get(id(p))
-            if g is not None and raw is not None:
+            if id(raw) in ARG_OF_OBJ:                    # the constructor stored its default-argument object
+                out.append(['A', len(self.site_ids) + ARG_OF_OBJ[id(raw)]])
+            elif g is not None and raw is not None:
                 out.append(['D', self.local[g]])
             else:
                 out.append(self.x_of_value(raw))
@@ -274,6 +306,44 @@ class Case:
             return ['write', r, path, k, self.intern(v)]
         return ['skip']
 
+    def lists(self, obj, path, out, depth=0):
+        """list objects reachable from an instance: (path of field indices, list)"""
+        if depth > 4:
+            return
+        if X.is_struct(obj):
+            for k, raw in enumerate(X.raw_fields(obj)):
+                if isinstance(raw, list):
+                    out.append(([*path, k], raw))
+                if X.is_mutable(raw):
+                    self.lists(raw, [*path, k], out, depth + 1)
+        elif isinstance(obj, list):
+            for k, e in enumerate(obj):
+                if isinstance(e, list):
+                    out.append(([*path, k], e))
+                if X.is_struct(e) or isinstance(e, list):
+                    self.lists(e, [*path, k], out, depth + 1)
+
+    def do_mutate(self, r, sel, kind):
+        """IN-PLACE list operation through instance r: append (an immutable value) / pop / clear"""
+        out = []
+        self.lists(self.insts[r], [], out)
+        if not out:
+            return ['skip']
+        nonempty = [x for x in out if x[1]]
+        if kind != 0 and nonempty:
+            out = nonempty
+        path, lst = out[sel % len(out)]
+        if kind == 0:
+            v = f'c12-appended-{self.rng.randrange(1000)}'
+            lst.append(v)
+            return ['mutate', r, path, 'append', self.intern(v)]
+        if kind == 1:
+            if lst:
+                lst.pop()
+            return ['mutate', r, path, 'pop', 0]
+        lst.clear()
+        return ['mutate', r, path, 'clear', 0]
+
     def run(self, ops):
         for kind, a, b, c in ops:
             n = len(self.insts)
@@ -287,6 +357,8 @@ class Case:
                 res = self.do_deepcopy(a % n)
             elif kind == 'update':
                 res = self.do_update(a % n, b % n)
+            elif kind == 'mutate':
+                res = self.do_mutate(a % n, b, c)
             else:
                 res = self.do_write(a % n, b, c)
             self.emit(res)
@@ -302,6 +374,7 @@ if req.get('discover'):
     direct = direct_site_classes()
     print(json.dumps({'direct': direct, 'carriers': carrier_classes(direct),
                       'sites': [[s[0], s[1], type(s[2]).__name__, type(s[3]).__name__] for s in SITES],
+                      'arg_sites': [[a[0], a[1], type(a[2]).__name__] for a in ARGSITES],
                       'n_classes': len(CLASSES)}))
 else:
     traces = []
